@@ -207,9 +207,11 @@ def run(chk: Check) -> None:
                'cancel, raises instead)', node=acts[0], kind='pending-guard')
         cfg = ff.cfg
         # refusal branch raises
-        tests = [t for t in cfg.nodes if t.kind == 'test' and norm(t.ast.test) == 'self.done()']
-        from ..rules import branch_reaches_exit
-        chk.ob('FUT-run-once', run_f, bool(tests) and not any(branch_reaches_exit(cfg, t, 'true') for t in tests),
+        # decision table over ``self.done()`` = True: every way through run() ends in a raise, and the action is not called on it
+        from ..decisions import paths_under
+        act_nodes = {m.id for m in cfg.nodes_containing(acts[0])}
+        done_paths = paths_under(ff, {'self.done()': True})
+        chk.ob('FUT-run-once', run_f, bool(done_paths) and all(p[-1] is cfg.raise_exit and not any(m.id in act_nodes for m in p) for p in done_paths),
                'run() on a finished / cancelled action raises', kind='refuses-when-done')
         withs = [w for w in ast.walk(run_f.node) if isinstance(w, ast.With) and any(
             isinstance(i.context_expr, ast.Call) and last_name(i.context_expr) == 'capture_exceptions' and [norm(a) for a in i.context_expr.args] == ['self'] and not i.context_expr.keywords
